@@ -279,6 +279,10 @@ func applyChange(content string, lines []string, change TextDocumentContentChang
 
 	startOffset := positionToOffset(lines, change.Range.Start)
 	endOffset := positionToOffset(lines, change.Range.End)
+	// A line past the last line addresses the end of the document.
+	if startOffset > len(content) {
+		startOffset = len(content)
+	}
 
 	// Build new content
 	var result strings.Builder
@@ -293,6 +297,13 @@ func applyChange(content string, lines []string, change TextDocumentContentChang
 
 // positionToOffset converts a Position to a byte offset
 func positionToOffset(lines []string, pos Position) int {
+	// Negative coordinates are not valid LSP positions; treat them as 0.
+	if pos.Line < 0 {
+		pos.Line = 0
+	}
+	if pos.Character < 0 {
+		pos.Character = 0
+	}
 	offset := 0
 	for i := 0; i < pos.Line && i < len(lines); i++ {
 		offset += len(lines[i]) + 1 // +1 for newline
